@@ -4,6 +4,7 @@ import copy, json, random
 from ..common import Result, Violation, run_driver, canon_hash
 from ..langgen import LangGen, chain_language, gen_model, lang_payload, inst_payload
 from ..genrun import impl_generate, Ref
+from .. import genexec
 
 ASSUMPTIONS = [
     'languages are well-formed (single inheritance, well-typed step expressions, no variable shadowing, target steps exist); models valid for the language with unique asset ids and names',
@@ -55,9 +56,10 @@ def nonterminating(spec, inst, res):
                                  fingerprint='C01:no-termination', replay={'spec': spec, 'inst': small, 'churn_seed': None})
     return None
 
-def check_case(spec, inst, mo, res: Result, churn_seed=None):
-    """returns a Violation or None"""
+def check_case(spec, inst, mo, res: Result, churn_seed=None, keep=None):
+    """returns a Violation or None (`keep`: a dict that receives the observation of the real graph under `im`)"""
     im = impl_generate(spec, inst, churn=None if churn_seed is None else random.Random(churn_seed))
+    if keep is not None: keep['im'] = im
     ref = Ref(spec, inst)
     if 'error' in im:
         if mo is not None and 'error' in mo and mo['error'] == im['error']:
@@ -130,6 +132,7 @@ def run(seed, tier, lean) -> Result:
         lp = {}
         model = run_driver([{'op': 'gen', 'case': i, 'lang': lp.setdefault(id(s), lang_payload(s)), 'inst': inst_payload(m)}
                             for i, (s, m) in enumerate(cases)])
+    third = []          # the cases for the third column (the GENERATED code), run after the real code
     for i, (spec, inst) in enumerate(cases):
         res.evaluations += 1
         mo = None
@@ -143,11 +146,13 @@ def run(seed, tier, lean) -> Result:
         cs = (seed * 1000003 + i) if i % 3 == 2 else None
         if cs is not None: res.bump('churned_models')
         from ..common import guarded
-        done, v = guarded(res, check_case, spec, inst, mo, res, churn_seed=cs)
+        keep = {}
+        done, v = guarded(res, check_case, spec, inst, mo, res, churn_seed=cs, keep=keep)
         if not done:
             v = nonterminating(spec, inst, res)
             if v: res.violations.append(v); break
             continue
+        if v is None and model is not None and 'im' in keep: third.append((spec, inst, keep['im'], {'_replay': {'churn_seed': cs}}))
         ops = set()
         for e in all_exprs(spec): expr_ops(e, ops)
         for o in ops: res.bump('op:' + o)
@@ -170,7 +175,19 @@ def run(seed, tier, lean) -> Result:
         if len(res.samples) < 2 and mo and 'edges' in mo and len(mo['edges']) > 3:
             res.samples.append({'lang_assets': [a['name'] for a in spec['assets']], 'inst': inst, 'edges': mo['edges'][:10]})
     if not res.samples: res.samples.append({'inst': cases[0][1]})
+    # third column: generated `lg__generate_graph`, `model_add_*`, `AttackGraph(lang_graph, model)` on the same inputs; node list
+    # exact, edges as SETS (the property) with order / multiplicity differences of the children / parents lists counted as drift
+    res.violations.extend(genexec.generate_column('C01', res, third, edges='set'))
     return res
+
+def genexec_measure(seed: int, n: int) -> dict:
+    """tools/genexec_seeded.py: the cases of the quick check on (mutated) implementation / hand model / regenerated code"""
+    rnd = random.Random(seed); cases = []
+    for i in range(n):
+        r = random.Random(rnd.getrandbits(48))
+        spec = chain_language(r) if i % 4 == 3 else LangGen(r).gen()
+        cases.append((spec, gen_model(r, spec), (seed * 1000003 + i) if i % 3 == 2 else None, 0.4))
+    return genexec.generate_measure(cases, edges='set')
 
 def replay(path):
     r = json.load(open(path))
